@@ -52,6 +52,13 @@ def run(ctx):
     R.rule_text = 'one obligation per (wake source, distinct Pending exit state) of the dispatch poll, explored to fixpoint; plus fan-out ordering and leak-primitive query'
     R.assumptions = ['a Pending result registers the waker', 'closed queues stay closed']
     R.info['configs'] = ['full']
+    # every tracked call keeps an armed deadline timer until it is resolved: with a silent peer the timer is the only thing left that can wake the
+    # dispatch for it (entry present => timer armed: the timer is armed at registration [C05], removed only together with the entry, and an expiry
+    # always removes the entry it fired for)
+    from .C11 import removal_pairing
+    from .deadlines import expiry_rules
+    removal_pairing(ctx, 'C02.timer', 'client')
+    expiry_rules(ctx, 'C02.timer', 'client', Table(F, 'client'))
     poll, reach, jobs = source_jobs(F, P, ('R', 'Q', 'K', 'T'), extra=[{'key': 'fanout', 'aut': ('custom', FanoutAut), 'depth': 4}])
     res = run_jobs(F, jobs)
     tot_states = 0
